@@ -272,38 +272,41 @@ TmplOfRevS(s, n) == LET S == {k \in 1..Len(s.api.revs) : s.api.revs[k].name = n}
                     IF S = {} THEN "?" ELSE s.api.revs[CHOOSE k \in S : TRUE].tmpl
 SameSet(a, b)   == [a EXCEPT !.rv = 0] = [b EXCEPT !.rv = 0]
 
-\* exactly the desired pods, all Ready, each at the revision its ordinal calls for, truthful status, caches caught up
-ConvergedS(s) ==
+\* exactly the desired pods, all Running and Ready, each at the revision its ordinal calls for
+PodsRightS(s) ==
   LET a == s.api IN
-  /\ ~a.set.paused /\ ~a.set.deleting
   /\ \A o \in Ords : a.pods[o].present <=> o \in DesiredOf(s)
   /\ DesiredOf(s) \subseteq Ords
   /\ \A o \in DesiredOf(s) : LET p == a.pods[o] IN
         /\ p.phase = "Running" /\ p.ready /\ ~p.term /\ p.owner = "self"
         /\ (a.set.strat = "RollingUpdate" /\ o >= a.set.part) => TmplOfRevS(s, p.rev) = a.set.tmpl
-  /\ a.set.status.replicas = a.set.replicas /\ a.set.status.ready = a.set.replicas
-  /\ a.set.status.obsGen = a.set.gen
-  \* the history is within its limit (a reconcile that completes a rollout trims the old current revision only on
-  \* the next pass, which its own status write triggers: the fixed point is reached after that pass)
-  /\ LET live == {a.set.status.curRev, a.set.status.updRev} \cup {a.pods[o].rev : o \in {x \in Ords : a.pods[x].present}} IN
-     Cardinality({k \in 1..Len(a.revs) : a.revs[k].name \notin live}) <= a.set.histLimit
-  /\ SameSet(s.cache.set, a.set) /\ s.cache.set.rv = a.set.rv /\ s.cache.pods = a.pods
+CaughtUpS(s) == SameSet(s.cache.set, s.api.set) /\ s.cache.set.rv = s.api.set.rv /\ s.cache.pods = s.api.pods
+NoWritesS(s) == LET r == Sync(SnapS(s, <<>>)) IN r.res = "ok" /\ \A k \in 1..Len(r.calls) : ~IsWrite(r.calls[k])
+
+\* the fixed point of C02: the pods are right, the caches have caught up, and a reconcile has nothing left to write
+ConvergedS(s) == /\ ~s.api.set.paused /\ ~s.api.set.deleting
+                 /\ PodsRightS(s) /\ CaughtUpS(s) /\ NoWritesS(s)
 Converged == ConvergedS(Here)
 
-\* C02, second sentence: at the fixed point a reconcile writes nothing
-QuiescentS(s) == ConvergedS(s) => LET r == Sync(SnapS(s, <<>>)) IN r.res = "ok" /\ \A k \in 1..Len(r.calls) : ~IsWrite(r.calls[k])
-Quiescent == QuiescentS(Here)
-
-\* C12, last sentence: at the fixed point the counters are an exact census
-CensusS(s) ==
-  LET a == s.api live == {o \in Ords : a.pods[o].present} IN
+\* C02 / C12 at the fixed point: the status tells the truth - replicas = readyReplicas = spec.replicas, the generation is
+\* the observed one, the four counters are an exact census of the live pods, the update revision mirrors the template,
+\* and the history is within its limit
+StatusTruthS(s) ==
+  LET a == s.api live == {o \in Ords : a.pods[o].present}
+      used == {a.set.status.curRev, a.set.status.updRev} \cup {a.pods[o].rev : o \in live} IN
   ConvergedS(s) =>
+  /\ a.set.status.replicas = a.set.replicas /\ a.set.status.ready = a.set.replicas /\ a.set.status.obsGen = a.set.gen
   /\ a.set.status.replicas = Cardinality(live)
   /\ a.set.status.ready    = Cardinality({o \in live : a.pods[o].phase = "Running" /\ a.pods[o].ready})
   /\ a.set.status.current  = Cardinality({o \in live : ~a.pods[o].term /\ a.pods[o].rev = a.set.status.curRev})
   /\ a.set.status.updated  = Cardinality({o \in live : ~a.pods[o].term /\ a.pods[o].rev = a.set.status.updRev})
   /\ TmplOfRevS(s, a.set.status.updRev) = a.set.tmpl
-Census12 == CensusS(Here)
+  /\ Cardinality({k \in 1..Len(a.revs) : a.revs[k].name \notin used}) <= a.set.histLimit
+StatusTruth == StatusTruthS(Here)
+\* once the pods are right and everything has caught up, at most the bookkeeping is left: no pod is touched any more
+QuietPodsS(s) == (PodsRightS(s) /\ CaughtUpS(s) /\ ~s.api.set.paused /\ ~s.api.set.deleting) =>
+                   LET r == Sync(SnapS(s, <<>>)) IN \A k \in 1..Len(r.calls) : r.calls[k][2] \notin {"pods", "persistentvolumeclaims"}
+QuietPods == QuietPodsS(Here)
 
 \* every reconcile that can start in a reachable state (stale caches, one injected fault) satisfies the per-reconcile properties
 RS(P(_, _)) == \A fs \in FaultChoices : LET sn == Snap(fs) IN P(sn, Sync(sn))
